@@ -1,9 +1,11 @@
 package c15
 
 import (
+	"bytes"
 	"context"
 	"errors"
 	"fmt"
+	"io"
 	"net/http"
 	"net/url"
 	"os"
@@ -52,6 +54,14 @@ type Case struct {
 	// FailWrapsNotFound: the callback's failure wraps errdef.ErrNotFound (e.g. a
 	// callback that fetches a listed item that is gone)
 	FailWrapsNotFound bool `json:"failWrapsNotFound,omitempty"`
+	// Via: the registry answers the first listing request with a redirect to another
+	// host, which serves (and paginates) the listing; a relative next link is
+	// relative to that host
+	Via bool `json:"via,omitempty"`
+	// Trail: every listing document is followed by a few KiB of white space (legal
+	// after a JSON value); the document itself is what has to fit the limit, and
+	// nothing beyond the limit may be read
+	Trail bool `json:"trail,omitempty"`
 }
 
 var errCallback = errors.New("verif: callback failure")
@@ -92,6 +102,9 @@ func genCase(t *rapid.T) Case {
 	}
 	if c.Kind == "oci-tags" {
 		c.View = rapid.SampledFrom([]string{"live", "fs", "tar"}).Draw(t, "view")
+	} else if !c.TagSchema {
+		c.Via = rapid.IntRange(0, 3).Draw(t, "via") == 2
+		c.Trail = rapid.IntRange(0, 3).Draw(t, "trail") == 1
 	}
 	return c
 }
@@ -141,7 +154,28 @@ func runCase(c Case) (res vt.Result, fail *vt.Fail) {
 		if nreq > 200 {
 			return nil, fmt.Errorf("verif: more than 200 page requests for %d items: the listing does not terminate", c.Items)
 		}
+		if c.Via && req.URL.Host == host && req.Method == http.MethodGet {
+			loc := *req.URL
+			loc.Host = "mirror.test"
+			return regmodel.Response(req, 307, http.Header{"Location": []string{loc.String()}}, nil, false, rec.BodyRead), nil
+		}
 		return nil, nil
+	}
+	docLens := map[*regmodel.ReqRecord]int64{}
+	if c.Trail {
+		reg.Post = func(req *http.Request, resp *http.Response) *http.Response {
+			if resp == nil || resp.StatusCode != 200 || req.Method != http.MethodGet || strings.Contains(req.URL.Path, "/manifests/") || strings.Contains(req.URL.Path, "/blobs/") {
+				return resp
+			}
+			doc, _ := io.ReadAll(resp.Body)
+			resp.Body.Close()
+			rec := reg.Log[len(reg.Log)-1]
+			*rec.BodyRead = 0
+			docLens[rec] = int64(len(doc))
+			h := resp.Header.Clone()
+			h.Del("Content-Length")
+			return regmodel.Response(req, 200, h, append(doc, bytes.Repeat([]byte(" \n"), 3000)...), true, rec.BodyRead)
+		}
 	}
 	client := &http.Client{Transport: reg}
 	var expected []string
@@ -252,13 +286,32 @@ func runCase(c Case) (res vt.Result, fail *vt.Fail) {
 	if len(viol) > 0 {
 		return res, vt.Failf("C15/request-not-spec-conformant", "%v", viol)
 	}
+	if c.Via {
+		// only the very first request goes to the host the caller named: every next
+		// link is relative to (or names) the host that served the page
+		res.Classes = append(res.Classes, "listing-served-by-a-redirect-target")
+		var served []*regmodel.ReqRecord
+		for i, rec := range log {
+			if rec.Host == host && i > 0 {
+				return res, vt.Failf("C15/next-page-url", "request %d (%s) went back to %s although the previous page was served by mirror.test, which its Link (style %d) is relative to", i+1, rec.URL, host, c.LinkStyle)
+			}
+			if rec.Status != 307 {
+				served = append(served, rec)
+			}
+		}
+		log = served
+	}
 	pages := len(log)
 	overLimit := false
 	for _, rec := range log {
 		if *rec.BodyRead > limit {
 			return res, vt.Failf("C15/metadata-over-read", "%s %s: %d bytes of the response were read, MaxMetadataBytes is %d", rec.Method, rec.URL, *rec.BodyRead, limit)
 		}
-		if rec.BodyLen > limit {
+		bl := rec.BodyLen
+		if dl, ok := docLens[rec]; ok {
+			bl = dl // the document, without the white space after it
+		}
+		if bl > limit {
 			overLimit = true
 		}
 	}
